@@ -31,6 +31,10 @@ def build_cases(rnd, thorough):
             cases.append((kind, a, b))
             if g.r.random() < 0.15:
                 cases.append((kind, a, a))
+        # the same two texts under every view they are valid for (C08: the order must not depend on the view)
+        for p, q in cmpgen.two_component_pairs(g, 600 if thorough else 160):
+            a, b = Gen.compose(p).encode(), Gen.compose(q).encode()
+            cases.append((fam + 'ref', a, b)); cases.append((fam, a, b))
         for comp, vocab in cmpgen.COMPONENT_VOCAB.items():
             kind = comp if comp in ('scheme', 'port') else fam[0] + comp
             if comp in ('scheme', 'port') and fam == 'iri':
